@@ -8,6 +8,7 @@ package rtpdump
 import (
 	"encoding/binary"
 	"errors"
+	"math"
 	"net"
 	"time"
 )
@@ -18,7 +19,12 @@ const (
 	preambleLen  = 36
 )
 
-var errMalformed = errors.New("malformed rtpdump")
+var (
+	errMalformed       = errors.New("malformed rtpdump")
+	errUnrepresentable = errors.New("value not representable in rtpdump")
+)
+
+const maxPayloadLen = math.MaxUint16 - pktHeaderLen
 
 // Header is the binary header at the top of the RTPDump file. It contains
 // information about the source and start time of the packet stream included
@@ -37,6 +43,9 @@ func (h Header) Marshal() ([]byte, error) {
 	data := make([]byte, headerLen)
 
 	startNano := h.Start.UnixNano()
+	if startNano < 0 || startNano/int64(time.Second) > math.MaxUint32 {
+		return nil, errUnrepresentable
+	}
 	startSec := uint32(startNano / int64(time.Second)) //nolint:gosec // G115
 	startUsec := uint32(                               //nolint:gosec // G115
 		(startNano % int64(time.Second)) / int64(time.Microsecond),
@@ -88,6 +97,13 @@ type Packet struct {
 
 // Marshal encodes the Packet as binary.
 func (p Packet) Marshal() ([]byte, error) {
+	if len(p.Payload) > maxPayloadLen {
+		return nil, errUnrepresentable
+	}
+	if p.Offset < 0 || p.Offset/time.Millisecond > math.MaxUint32 {
+		return nil, errUnrepresentable
+	}
+
 	packetLength := len(p.Payload)
 	if p.IsRTCP {
 		packetLength = 0
